@@ -73,12 +73,12 @@ Ltac tie_close :=
 
 Lemma ReloadId_update_tie : forall cur new, gen_update cur new = Some (update cur new).
 Proof.
-  intros cur new. run_gen. tie_close.
+  intros cur new. Timeout 30 run_gen. tie_close.
 Qed.
 
 Lemma AtomicReloadId_tie : forall c o, gen_astep c o = Some (astep c o).
 Proof.
-  intros c [n|n|n|n| |]; run_gen; tie_close.
+  intros c [n|n|n|n| |]; Timeout 60 (run_gen; tie_close).
 Qed.
 
 (* Every method of AtomicReloadId touches the shared cell by exactly one atomic operation: the
